@@ -22,6 +22,7 @@ package seccomp
 
 import (
 	"fmt"
+	"runtime"
 	"syscall"
 	"unsafe"
 
@@ -63,6 +64,11 @@ func LoadFilter(filter Filter) error {
 		Len:    uint16(len(sockFilter)),
 		Filter: &sockFilter[0],
 	}
+
+	// no_new_privs is a per-thread attribute and seccomp(2) checks it on the
+	// calling thread, so both calls must be made from the same OS thread.
+	runtime.LockOSThread()
+	defer runtime.UnlockOSThread()
 
 	if filter.NoNewPrivs {
 		if err = SetNoNewPrivs(); err != nil {
